@@ -18,7 +18,7 @@ THEOREMS = [
     "C10_failure_roundtrip", "C10_gen_failures_ok", "C10_tlvmsg_always_record_grows",
     "C10_feature_vector_roundtrip",
     "C10_optmsg_roundtrip", "C10_optmsg_fixpoint", "C10_gen_optmsgs_ok",
-    "C10_failure_update_roundtrip", "C10_gen_fdescs_ok",
+    "C10_failure_update_roundtrip", "C10_gen_fdescs_ok", "C10_gen_coverage",
 ]
 MODULE = "LV.Wire.Props"
 TARGETS = ["theories/Wire/Props.vo", "theories/Wire/Exec.vo", "theories/Wire/Examples.vo",
@@ -27,7 +27,7 @@ H_TLV = ["tlv/verif_tlv_test.go"]
 H_WIRE = ["lnwire/verif_wire_test.go"]
 WARM = [{"pkg": "tlv", "files": H_TLV, "moddir": "tlv"},
         {"pkg": "lnwire", "files": H_WIRE}]
-IMPORTS = ("From Coq Require Import List NArith Bool.\nImport ListNotations.\n"
+IMPORTS = ("From Coq Require Import List NArith Bool Uint63.\nImport ListNotations.\n"
            "From LV Require Import Wire.Model Wire.MsgModel Wire.Exec.\n")
 
 SIG_COPYN = "C10 tlv:nonp2p-negative-length"
@@ -48,6 +48,18 @@ def coq_cap(r):
 U64 = 1 << 64
 
 # ------------------------------------------------------------------ Coq terms
+
+
+def cbytes(hexstr):   # shadows lib.verif.cbytes: packed transport, see Wire.Exec.ub
+    """a byte string as `ub n [ints]`: 7 bytes per primitive int (parses ~10x faster)"""
+    b = bytes.fromhex(hexstr)
+    if not b:
+        return "(ub 0%N [])"
+    ints = []
+    for i in range(0, len(b), 7):
+        c = b[i:i + 7]
+        ints.append(str(int.from_bytes(c + bytes(7 - len(c)), "big")))
+    return "(ub %d%%N [%s]%%uint63)" % (len(b), ";".join(ints))
 
 
 def t_kind(k):
@@ -85,6 +97,11 @@ def t_case(r):
             cbytes(r["b"]), cbool(r["ok"]), cN(r["t"]),
             clist([t_fval(f) for f in r.get("fields") or []]), cbytes(r.get("extra") or ""),
             cbytes(r.get("reenc") or ""), clist([cbytes(x) for x in r.get("pts") or []]))
+    if k == "msg" and r.get("pts") is not None:
+        return "CMsgP %s %s %s %s %s %s" % (
+            cbytes(r["b"]), cbool(r["ok"]), cN(r["t"]),
+            clist([t_fval(f) for f in r.get("fields") or []]), cbytes(r.get("reenc") or ""),
+            clist([cbytes(x) for x in r["pts"]]))
     if k == "msg":
         return "CMsg %s %s %s %s %s" % (
             cbytes(r["b"]), cbool(r["ok"]), cN(r["t"]),
@@ -130,8 +147,9 @@ def load_gen_fields():
             fields.append((name, codec, cond))
         out[int(m.group(1))] = {"kind": m.group(2), "mode": m.group(3), "ext": m.group(4),
                                 "fields": fields}
-    out[CUSTOM_FIRST] = {"kind": "plain", "mode": "-", "ext": "Data",
-                         "fields": [("Data", "FRest", None)]}
+    for t in (CUSTOM_FIRST, CUSTOM_FIRST + 1, 65535):
+        out[t] = {"kind": "plain", "mode": "-", "ext": "Data",
+                  "fields": [("Data", "FRest", None)]}
     return out
 
 
@@ -177,6 +195,73 @@ def failure_model_rows(wrows, codes):
             continue
         out.append(dict(r, t=code))
     return out
+
+
+# message types / failure codes that have a generated description on the registered tree.
+# One of them missing from Gen/GenWire.v (or its Encode- and Decode-side descriptions
+# differing) means a source edit pushed it out of the translator's fragment: the build breaks
+# and its model comparison is gone, so run() searches that type directly (directed_search).
+EXPECTED_GENERATED = {1, 2, 16, 17, 18, 19, 32, 33, 34, 35, 36, 38, 39, 40, 41, 115, 128, 130, 131,
+                      132, 133, 134, 135, 136, 256, 257, 258, 259, 262, 263, 265, 513, 777,
+                      111, 113, 117}
+EXPECTED_FAILURES = {17, 18, 19, 21, 23, 4103, 4107, 4108, 4109, 4110, 4116, 8194, 16392, 16393,
+                     16394, 16399, 16400, 16406, 24578, 24579, 32769, 49156, 49157, 49158, 49176}
+
+
+def affected_by_fragment_loss():
+    """(message types, failure codes) whose description is missing or asymmetric."""
+    try:
+        txt = open(os.path.join(THEORIES, "Gen", "GenWire.v")).read()
+    except OSError:
+        return set(EXPECTED_GENERATED), set(EXPECTED_FAILURES)
+    gen = {int(x) for x in re.findall(r"\(\* @fields (\d+) ", txt)}
+    name_type = {n: int(t) for n, t in re.findall(r'\("(\w+)", (\d+)\)', txt)}
+    fcode = {}
+    m = re.search(r"Definition gen_fdescs : ftable := \[(.*?)\]\.", txt, re.S)
+    if m:
+        for c, n in re.findall(r"\((\d+), FD\w+ fail(?:upd|eof)?_(\w+)\)", m.group(1)):
+            fcode[n] = int(c)
+    defs = dict(re.findall(r"Definition (\w+) : \w+ := (.*?)\.\s*(?:\(\*.*?\*\))?\n", txt))
+    msgs = EXPECTED_GENERATED - gen
+    fails = EXPECTED_FAILURES - set(fcode.values())
+    if "unsupported_failures" in txt and not m:
+        fails = set(EXPECTED_FAILURES)
+    for encp, decp, table in (("enc_", "dec_", name_type), ("encmsg_", "msg_", name_type),
+                              ("encopt_", "opt_", name_type), ("failenc_", "fail_", fcode),
+                              ("failencupd_", "failupd_", fcode), ("failenceof_", "faileof_", fcode)):
+        for k, v in defs.items():
+            if k.startswith(encp):
+                n = k[len(encp):]
+                if defs.get(decp + n) is not None and defs[decp + n] != v and n in table:
+                    (fails if table is fcode else msgs).add(table[n])
+    return msgs, fails
+
+
+def directed_search(ctx, msgs, fails, report):
+    """Re-run the value/byte generators for exactly the affected message types and failure
+    codes at 5x volume (other inputs than the first run) under the python round-trip /
+    fixpoint predicates.  Returns the number of rows examined."""
+    env = {"VERIF_BOOST": "5"}
+    if msgs:
+        env["VERIF_ONLY"] = ",".join(str(t) for t in sorted(msgs))
+    if fails:
+        env["VERIF_ONLY_FAIL"] = ",".join(str(t) for t in sorted(fails))
+    if not msgs and fails:
+        env["VERIF_ONLY"] = "-1"
+    rc, tr, out = run_harness(ctx.uid("wiredir"), "lnwire", H_WIRE, "^TestVerifWire$", env=env,
+                              timeout=1500)
+    rows = read_jsonl(tr)
+    for r in rows:
+        k = r["k"]
+        if k in ("msg", "fail"):
+            f, sig = pred_msg(r)
+            if f:
+                report("C10_fixpoint", dict(r, directed=True), f, sig)
+        elif k in ("val", "failval"):
+            f = pred_val(r)
+            if f:
+                report("C10_layout_roundtrip", dict(r, directed=True), f, None)
+    return len(rows)
 
 
 def ordered_fields(desc, fmap):
@@ -261,6 +346,9 @@ def prepare_model_rows(wrows, gen):
             if f is None:
                 continue
             q["fields"] = f
+        if d["kind"] == "plain" and any(c == "FPoint" for _, c, _ in d["fields"]):
+            # ParsePubKey oracle as a table (the Coq curve test costs ~2 s per point)
+            q["pts"] = curve_points(bytes.fromhex(r["b"])[2:])
         if d["kind"] in ("tlv", "opt"):
             q["tlvmsg" if d["kind"] == "tlv" else "optmsg"] = True
             q["pts"] = curve_points(bytes.fromhex(r["b"])[2:])
@@ -491,6 +579,9 @@ def pred_val(r):
 
 
 def run(ctx):
+    import time
+    t0 = time.time()
+    stage = {}
     pr = ctx.proof_stage(MODULE, THEOREMS, TARGETS, extra_trusted=[
         "on_curve (btcec.ParsePubKey verdict) is a Section variable: layout theorems hold for "
         "any oracle; no hypothesis is placed on it",
@@ -501,6 +592,7 @@ def run(ctx):
         "per run by the byte-exact comparison of verdict, fields and re-encoded bytes",
         "python secp256k1 point test (props/c10.py secp_on_curve) supplies the ParsePubKey oracle "
         "table of each TLV-message case"])
+    stage["proof"] = round(time.time() - t0, 1)
     env = {}
     rc1, tr1, out1 = run_harness(ctx.uid("tlv"), "tlv", H_TLV, "^TestVerifTlv$", env=env,
                                  moddir="tlv", timeout=1200)
@@ -509,8 +601,10 @@ def run(ctx):
         ctx.violation("harness_failed", "TestVerifTlv", {"log": out1[-4000:]},
                       signature="harness", failing_input=False)
         return
+    stage["tlv_harness"] = round(time.time() - t0, 1)
     rc2, tr2, out2 = run_harness(ctx.uid("wire"), "lnwire", H_WIRE, "^TestVerifWire$", env=env,
                                  timeout=1500)
+    stage["wire_harness"] = round(time.time() - t0, 1)
     wrows = read_jsonl(tr2)
     if rc2 != 0 or not wrows:
         ctx.violation("harness_failed", "TestVerifWire", {"log": out2[-4000:]},
@@ -575,8 +669,10 @@ def run(ctx):
         frows = [frows[int(i * step)] for i in range(600)]
     crow += frows
     terms = [t_case(r) for r in crow]
+    stage["predicates"] = round(time.time() - t0, 1)
     ok, bad, logs = coq_mismatches(ctx.uid(), IMPORTS, terms,
                                    shard=max(20, len(terms) // NCPU + 1))
+    stage["model_eval"] = round(time.time() - t0, 1)
     if not ok:
         ctx.violation("correspondence_mismatch", "Wire.Exec (model evaluation failed)",
                       {"logs": logs}, signature="model-eval", failing_input=False)
@@ -590,9 +686,19 @@ def run(ctx):
                                  "verdict/fields, 10 ExtraData field, 11 TLV-message re-encode, "
                                  "12 failure verdict/code, 13 failure re-encode"},
                       signature="C10 mismatch %s check%s" % (r["k"], which))
+    directed = None
+    if not pr["ok"] and not ctx.violations:
+        # nothing concrete so far: if the break is a message / failure code that fell out of
+        # the translator's fragment (or became asymmetric), search exactly those types
+        amsgs, afails = affected_by_fragment_loss()
+        if amsgs or afails:
+            n = directed_search(ctx, amsgs, afails, report)
+            directed = {"message_types": sorted(amsgs), "failure_codes": sorted(afails),
+                        "rows": n}
     if not pr["ok"] and not ctx.violations:
         ctx.violation("proof_broken", ", ".join(pr["broken"]) or "Wire build",
-                      {"log": pr["log"][-4000:]}, signature="proof", failing_input=False)
+                      {"log": pr["log"][-4000:], "directed_search": directed},
+                      signature="proof", failing_input=False)
 
     if ctx.thorough:
         ctx.coqchk(["LV.Wire.Props"])
@@ -622,9 +728,11 @@ def run(ctx):
         "feature_boundary_model_cases": sum(1 for r in mrows
                                             if str(r.get("mut", "")).startswith("feat")),
         "failure_codes_modelled": sorted(load_gen_failures()),
-        "generated_layout_types": sorted(t for t in gen if t != CUSTOM_FIRST),
+        "generated_layout_types": sorted(t for t in gen if t < CUSTOM_FIRST),
         "samples": [rows[0], {k: v for k, v in wrows[0].items() if k != "b"}],
         "correspondence_mismatches": len(bad),
+        "directed_search": directed,
+        "stage_seconds_cumulative": stage,
         "predicate_failures": dict(nviol),
     })
     ctx.assumptions += [
